@@ -34,7 +34,7 @@ def eUnmodelled : String := "unmodelled"
 inductive Val where
   | scalar (r : Rat)
   | vec (v : Vec)
-deriving Repr, BEq, DecidableEq
+deriving Repr, DecidableEq
 
 /-- `a.flatten()` -/
 def Val.flat : Val → Vec
@@ -75,7 +75,7 @@ def bop (f : Rat → Rat → Rat) : Val → Val → Except String Val
 
 inductive Act where
   | id | relu | square
-deriving Repr, BEq, DecidableEq
+deriving Repr, DecidableEq
 
 def Act.apply : Act → Rat → Rat
   | .id, x => x
@@ -85,7 +85,7 @@ def Act.apply : Act → Rat → Rat
 inductive Layer where
   | linear (W : List Vec) (b : Vec)
   | act (a : Act)
-deriving Repr, BEq, DecidableEq
+deriving Repr, DecidableEq
 
 def dot (u v : Vec) : Rat := (List.zipWith (· * ·) u v).sum
 
@@ -101,7 +101,7 @@ def mlpEval (ls : List Layer) (x : Vec) : Vec := ls.foldl (fun t l => l.apply t)
 inductive LayerSpec where
   | lin (inF outF : Nat)
   | act (a : Act)
-deriving Repr, BEq, DecidableEq
+deriving Repr, DecidableEq
 
 def Layer.spec : Layer → LayerSpec
   | .linear W b => .lin ((W.headD []).length) b.length
@@ -148,7 +148,7 @@ inductive Coef where
   | const (c : Rat)
   | eq (k : String)
   | inp (i : Nat)
-deriving Repr, BEq, DecidableEq
+deriving Repr, DecidableEq
 
 def Coef.eval (c : Coef) (inputs : Vec) (p : PArg θ) : Except String Val :=
   match c with
@@ -168,7 +168,7 @@ def Coef.needsEq : Coef → Bool
 inductive TDesc where
   | id
   | affine (a b : Coef)
-deriving Repr, BEq, DecidableEq
+deriving Repr, DecidableEq
 
 def TDesc.needsEq : TDesc → Bool
   | .id => false
@@ -197,7 +197,7 @@ def TDesc.applyOut (d : TDesc) (inputs : Vec) (o : Val) (p : PArg θ) : Except S
 inductive OutSlice where
   | range (a b : Nat)
   | index (i : Nat)
-deriving Repr, BEq, DecidableEq
+deriving Repr, DecidableEq
 
 /-- `v[a:b]` for naturals `a`, `b`. -/
 def sliceFT (v : List α) (a b : Nat) : List α := (v.drop a).take (b - a)
@@ -232,7 +232,7 @@ def evalNN (net : θ → Vec → Vec)
 inductive EqType where
   | ode | statio | nonstatio
   | other            -- any other string
-deriving Repr, BEq, DecidableEq
+deriving Repr, DecidableEq
 
 /-- The positional arguments before `params`.
     ODE: `(t, params) = args`; a 0-d `t` becomes `t[..., None]`.
@@ -291,7 +291,7 @@ def sliceSolution (user : Option OutSlice) (nOut : Nat) : Nat × Nat :=
 structure Leaf where
   shape : List Nat
   data : Vec
-deriving Repr, BEq, DecidableEq
+deriving Repr, DecidableEq
 
 def Leaf.wf (l : Leaf) : Bool := l.data.length == l.shape.prod
 
